@@ -47,6 +47,9 @@ def lookup(fn):
     f, name = m
 
     def run(interp, args, kwargs):
+        if any(getattr(x, "_pyvc_series", False) for x in args):
+            # a pandas column handed to a NumPy function: NumPy works on its values (the result is treated as a plain array: A-PANDAS)
+            args = [x.arr if getattr(x, "_pyvc_series", False) else x for x in args]
         r = f(interp, args, kwargs)
         if r is not NotImplemented:
             USED.add(name)
@@ -1140,6 +1143,7 @@ def _opaque_unary(name):
     return m
 
 
+model(np.log)(_opaque_unary("log"))
 model(np.sqrt)(_opaque_unary("sqrt"))
 model(np.exp)(_opaque_unary("exp"))
 def _cos_model(I, a, k):
